@@ -174,6 +174,13 @@ MustRefuse(g, o) ==
   \/ o.op = "PayAnte" /\ g.ev # "AnteRequested"
   \/ o.op = "PayBlinds" /\ g.ev # "BlindsRequested"
   \/ o.op = "Next" /\ g.ev # "RoundClosed"
+\* an accepted action of the player to act is carried out as an action that player WAS offered: what the engine records
+\* as the thing the player did (did_action) is one of the offers (a raise request may end as an all-in or - at the level
+\* already standing - as a call, a bet as an all-in: always offered alternatives; Pass leaves no record).  Seeded change
+\* R4d-A: Raise(wager to match) in a check-or-raise spot was carried out as a call that was not offered.
+C04_actedAsOffered(g, t, o) ==
+  (Betting(g) /\ CurOK(g) /\ IsAction(o.op) /\ o.op # "Pass" /\ o.seat = g.cur /\ o.ok /\ t # g /\ t.n = g.n) =>
+     t.P[g.cur].did \in ToSet(g.P[g.cur].allowed)
 C04_refused(g, t, o) == (Started(g) /\ MustRefuse(g, o)) => (~o.ok /\ t = g)
 
 (* C05 - a betting round closes exactly when it should                      *)
@@ -345,7 +352,7 @@ FailedState(t, h2, props) ==
 FailedStep(g, t, o, h, h2, props) ==
   (IF "C01" \in props THEN N("C01.antePots", C01_antePots(g, t, o)) ELSE {}) \cup
   (IF "C04" \in props THEN N("C04.first", C04_first(g, t, o)) \cup N("C04.clockwise", C04_clockwise(g, t, o))
-                           \cup N("C04.refused", C04_refused(g, t, o)) ELSE {}) \cup
+                           \cup N("C04.refused", C04_refused(g, t, o)) \cup N("C04.actedAsOffered", C04_actedAsOffered(g, t, o)) ELSE {}) \cup
   (IF "C05" \in props THEN N("C05.notEarly", C05_notEarly(g, t, o, h2)) \cup N("C05.oneLeft", C05_oneLeft(g, t, o))
                            \cup N("C05.oneLeftEnds", C05_oneLeftEnds(g, t, o))
                            \cup N("C05.noRoundWhenAllin", C05_noRoundWhenAllin(g, t, o)) ELSE {}) \cup
